@@ -876,9 +876,29 @@ def rf156(run):
     codes = dict(tu.enum('MIR_insn_code_t'))
     SPEC = {'MIR_ADDO': ('add', 64, ('s', 'u')), 'MIR_SUBO': ('sub', 64, ('s', 'u')), 'MIR_MULO': ('mul', 64, ('s',)), 'MIR_UMULO': ('mul', 64, ('u',)),
             'MIR_ADDOS': ('add', 32, ('s', 'u')), 'MIR_SUBOS': ('sub', 32, ('s', 'u')), 'MIR_MULOS': ('mul', 32, ('s',)), 'MIR_UMULOS': ('mul', 32, ('u',))}
-    call_re = re.compile(r'(__u?overflow)\s*=\s*__builtin_(add|sub|mul)_overflow\s*\(\s*\((u?int(?:32|64)_t)\)\s*\$1\s*,\s*\((u?int(?:32|64)_t)\)\s*\$2\s*,\s*(&\s*(__\w+)|\((u?int(?:32|64)_t)\s*\*\)\s*&\s*\$0)\s*\)')
+    call_re = re.compile(r'(\w+)\s*=\s*__builtin_(add|sub|mul)_overflow\s*\(\s*\((u?int(?:32|64)_t)\)\s*\$1\s*,\s*\((u?int(?:32|64)_t)\)\s*\$2\s*,\s*(&\s*(__\w+)|\((u?int(?:32|64)_t)\s*\*\)\s*&\s*\$0)\s*\)')
     decl_re = re.compile(r'\{\s*(u?int(?:32|64)_t)\s+(__\w+)\s*;')
     asg_re = re.compile(r'\$0\s*=\s*(__\w+)\s*;')
+    def region_text(nm):
+        idx = [i for i, r in enumerate(regs) if nm in [c[0] for c in r['cases']]]
+        if not idx:
+            raise F.AnalysisBroken('out_insn: no case for %s' % nm)
+        ex_ = PE.PrintExec(tu, {}, {}, {'out_op': lambda a_, e_, x_: '$0', 'out_jmp': lambda a_, e_, x_: 'goto $0;'})
+        ex_.exec_unit_calls = True
+        ex_.concrete_ints = True
+        for st in regs[idx[0]]['stmts']:
+            if ex_.run(st, {'insn->code': codes[nm], 'code': codes[nm]}) in ('break', 'return'):
+                break
+        return ' '.join(ex_.text().split())
+    # the names of the two flags are those the branch instructions test
+    fl = {}
+    for nm, sg in (('MIR_BO', 's'), ('MIR_UBO', 'u')):
+        m_ = re.search(r'if \((\w+)\)', region_text(nm))
+        if not m_:
+            raise F.AnalysisBroken('out_insn: the flag tested by %s is not recognised' % nm)
+        fl[m_.group(1)] = sg
+    if len(fl) != 2:
+        raise F.AnalysisBroken('out_insn: BO and UBO test the same flag (RF57 reports that)')
     n = 0
     for nm, (op, w, flags) in SPEC.items():
         idx = [i for i, r in enumerate(regs) if nm in [c[0] for c in r['cases']]]
@@ -923,7 +943,10 @@ def rf156(run):
             res_tmp = asg[0].group(1)
             for k, m_ in enumerate(found):
                 flag, name, t1, t2, tmp, t3 = m_.group(1), m_.group(2), m_.group(3), m_.group(4), m_.group(6), m_.group(7)
-                sg = 'u' if flag == '__uoverflow' else 's'
+                if flag not in fl:
+                    why = '`%s` is neither of the flags the branch instructions test (%s)' % (flag, ', '.join(sorted(fl)))
+                    break
+                sg = fl[flag]
                 want_t = ('u' if sg == 'u' else '') + 'int%d_t' % w
                 seen.add(sg)
                 dt = t3 if t3 else temps.get(tmp)
